@@ -300,6 +300,45 @@ theorem C10_images_refile_other (doc : PyVal) (s : ImgState) (h : Img.deserializ
     refine ⟨b, d, as, hk, hd, hmem, ?_⟩
     simp [targets, ha]
 
+open PM.Img in
+/-- **a ≤ 1.1 document that loads needs only binary arches**: if the document loads, every arch key under which one of
+its image dictionaries has to be filed — its own key, or for a `src` image EVERY other arch key of the variant, also
+one whose own list is empty — is binary.  (Contrapositive: a document with images under `nosrc` / an unknown name,
+or with source images next to such a key, is refused.) -/
+theorem C10_images_old_doc_arches (doc : PyVal) (s : ImgState) (h : Img.deserialize doc = .ok s)
+    (ver : PyVal) (hver : Img.headerDeserialize doc = .ok ver) (vt : VerT) (hvt : Img.versionTuple ver = .ok vt)
+    (hold : gateEval Gen.gate_images_Images_deserialize_0 vt = .ok true)
+    (payload : PyVal) (hp : PyOps.item doc (L "payload") = .ok payload) (O : OutCells) (hO : OutNodup O)
+    (himg : PyOps.item payload (L "images") = .ok O.toPy)
+    (v : Str) (as : List (Str × List PyVal)) (hv : (v, as) ∈ O) (a : Str) (l : List PyVal) (ha : (a, l) ∈ as) (d : PyVal) (hd : d ∈ l) :
+    ∀ b ∈ targets (as.map (·.1)) a, BinaryArch b := by
+  intro b hb
+  have hfiles := C10_images_refile doc s h ver hver vt hvt hold payload hp O hO himg
+  have ht : (v, a, d) ∈ outTriples O := by
+    simp only [outTriples, archTriples, List.mem_flatMap, List.mem_map]
+    exact ⟨(v, as), hv, (a, l), ha, d, hd, rfl⟩
+  obtain ⟨k, hk⟩ := List.getElem?_of_mem ht
+  -- the reader got through every dictionary
+  have hread : ∃ img, Image.deserialize ver d = .ok img := by
+    unfold Img.deserialize at h
+    obtain ⟨ver', hver', hA⟩ := bind_ok h
+    rw [hver] at hver'; injection hver' with hver'; subst hver'
+    obtain ⟨payload', hp', hB⟩ := bind_ok hA
+    rw [hp] at hp'; injection hp' with hp'; subst hp'
+    obtain ⟨comp, _, hC⟩ := bind_ok hB
+    obtain ⟨images, himg', hD⟩ := bind_ok hC
+    rw [himg] at himg'; injection himg' with himg'; subst himg'
+    obtain ⟨vs, hvs, hE⟩ := bind_ok hD
+    have e3 : PyOps.iter O.toPy = .ok (O.map fun va => .str va.1) := by
+      simp [toPy_eq, PyOps.iter, List.map_map, Function.comp_def]
+    rw [e3] at hvs; injection hvs with hvs; subst hvs
+    obtain ⟨r, hl, _⟩ := bind_ok hE
+    rw [loadVariants_eq ver O hO O (fun _ h => h)] at hl
+    exact loadTriples_reads ver O.toPy (outTriples O) _ r hl (v, a, d) ht
+  obtain ⟨img, hdi⟩ := hread
+  have hmem : (v, b, k, img) ∈ entries s.cells := (hfiles v b k img).mpr ⟨a, d, as, hk, hdi, hv, hb⟩
+  exact C10_keys_images_load doc s h b (archKey_of_entry hmem)
+
 /-! ### a concrete 1.1 document: hypotheses are satisfiable, the statement is not vacuous -/
 
 def exImage (path arch : String) (n : Int) : PyVal :=
